@@ -8,6 +8,7 @@ import (
 	"time"
 
 	cstypes "github.com/kardiachain/go-kardia/consensus/types"
+	auto "github.com/kardiachain/go-kardia/lib/autofile"
 	"github.com/kardiachain/go-kardia/lib/p2p"
 )
 
@@ -27,4 +28,30 @@ func VerifC15MsgInfo(m Message, peerID string) WALMessage {
 // VerifC15RepairWalFile calls the unexported WAL repair used by ConsensusState.OnStart.
 func VerifC15RepairWalFile(src, dst string) error {
 	return repairWalFile(src, dst)
+}
+
+// verifC15HookWriter forwards every write of the WAL encoder to the group unchanged and then tells
+// the checker, so that each underlying Group.Write is a scheduling point at which the checker may
+// run what the background tickers run (flush, head-size check).
+type verifC15HookWriter struct {
+	g    *auto.Group
+	hook func(g *auto.Group, n int)
+}
+
+func (w *verifC15HookWriter) Write(p []byte) (int, error) {
+	n, err := w.g.Write(p)
+	if err == nil && w.hook != nil {
+		w.hook(w.g, n)
+	}
+	return n, err
+}
+
+// VerifC15NewWALHooked is NewWAL with the encoder writing through verifC15HookWriter.
+func VerifC15NewWALHooked(walFile string, hook func(g *auto.Group, n int), groupOptions ...func(*auto.Group)) (*BaseWAL, error) {
+	wal, err := NewWAL(walFile, groupOptions...)
+	if err != nil {
+		return nil, err
+	}
+	wal.enc = NewWALEncoder(&verifC15HookWriter{g: wal.group, hook: hook})
+	return wal, nil
 }
